@@ -43,6 +43,8 @@ def run(ck: Check) -> int:
     from bounded import crypto_common as CC
     from pytezos.crypto.key import Key
     from pytezos.michelson.instructions.crypto import CheckSignatureInstruction
+    from props import C07_P
+    C07_P.run_sign_verify(ck)      # lead's deductive part: wrapper logic over uninterpreted primitives
 
     ck.function(Key.sign)
     ck.function(Key.verify)
